@@ -41,13 +41,19 @@ class _Canon(ast.NodeTransformer):
                 w = ast.Call(func=ast.Attribute(value=ast.Name(id='np', ctx=ast.Load()), attr='where', ctx=ast.Load()),
                              args=node.args, keywords=[])
                 return ast.copy_location(ast.Subscript(value=w, slice=ast.Constant(value=0), ctx=ast.Load()), node)
-            if f == 'array' and len(node.args) == 1 and not node.keywords and isinstance(node.args[0], ast.Name):
-                return ast.copy_location(ast.Call(func=ast.Attribute(value=node.args[0], attr='copy', ctx=ast.Load()), args=[], keywords=[]), node)
         if isinstance(node.func, ast.Attribute) and node.func.attr == 'reshape':
             a = [u(x) for x in node.args]
             if a in (['-1', '1'], ['(-1, 1)']):
                 sl = ast.Tuple(elts=[ast.Slice(lower=None, upper=None, step=None), ast.Constant(value=None)], ctx=ast.Load())
                 return ast.copy_location(ast.Subscript(value=node.func.value, slice=sl, ctx=ast.Load()), node)
+        return node
+
+    def visit_UnaryOp(self, node):
+        self.generic_visit(node)
+        # -<number> as one constant (the Cython front end delivers Constant(-1))
+        if isinstance(node.op, ast.USub) and isinstance(node.operand, ast.Constant) and \
+                isinstance(node.operand.value, (int, float)) and not isinstance(node.operand.value, bool):
+            return ast.copy_location(ast.Constant(value=-node.operand.value), node)
         return node
 
     def visit_Compare(self, node):
